@@ -1,10 +1,13 @@
 SPECIFICATION Spec
 CONSTANTS
   NTok = 3
-  Lifetime = 4
-  MaxTime = 12
-  Injections = 3
+  Lifetimes = {8, 20, 400}
+  MaxTime = 30
+  Injections = 2
+  RenewEarly = 2
+  LateFrom = 26
   Dev_ExpiryWrongKey = FALSE
+  Dev_PrefixOnly = FALSE
   AsIs_ExpiryWrongKey = FALSE
 INVARIANTS InvExpired InvActiveUsable InvNotEarly
 VIEW view
